@@ -169,20 +169,13 @@ pub fn code_rest(push_state: &mut PushState, _instruction_cache: &InstructionCac
 /// popping the argument).
 pub fn code_cons(push_state: &mut PushState, _instruction_cache: &InstructionCache) {
     if let Some(pv) = push_state.code_stack.pop_vec(2) {
-        let mut consblock = PushStack::new();
-        for i in (0..2).rev() {
-            match &pv[i] {
-                Item::Literal { push_type: _ } => {
-                    consblock.push(pv[i].clone());
-                }
-                Item::List { items: a } => {
-                    if let Some(vec) = a.copy_vec(a.size()) {
-                        consblock.push_vec(vec)
-                    }
-                }
-                _ => (),
-            }
-        }
+        // First item (top) coerced to a list
+        let mut consblock = match &pv[1] {
+            Item::List { items } => items.clone(),
+            atom => PushStack::from_vec(vec![atom.clone()]),
+        };
+        // Second item becomes the new first element
+        consblock.push(pv[0].clone());
         push_state.code_stack.push(Item::List { items: consblock });
     }
 }
